@@ -533,7 +533,19 @@ impl<R: Read, TSpec> TagIterator<R, TSpec>
             #[cfg(feature = "verif-hooks")] crate::verif::tick();
             if let Some(Master::Start) = child.as_master() {
                 let child_id = child.get_id();
-                let subchildren = iter.by_ref().take_while(|c| !matches!(c.as_master(), Some(Master::End)) || c.get_id() != child_id).collect();
+                // Masters with the same id can be nested, so look for the `End` that matches this `Start`
+                let mut nested = 0;
+                let subchildren = iter.by_ref().take_while(|c| {
+                    if c.get_id() == child_id {
+                        match c.as_master() {
+                            Some(Master::Start) => nested += 1,
+                            Some(Master::End) if nested == 0 => return false,
+                            Some(Master::End) => nested -= 1,
+                            _ => {},
+                        }
+                    }
+                    true
+                }).collect();
                 rolled_children.push(Self::roll_up_children(child_id, subchildren));
             } else {
                 rolled_children.push(child);
